@@ -5,6 +5,7 @@ import (
 	"math"
 	"strconv"
 	"strings"
+	"unicode/utf8"
 
 	rt "github.com/arnodel/golua/runtime"
 
@@ -22,7 +23,21 @@ type Opnd string
 
 func OInt(i int64) Opnd     { return Opnd("i:" + strconv.FormatInt(i, 10)) }
 func OFloat(f float64) Opnd { return Opnd("f:" + strconv.FormatUint(math.Float64bits(f), 16)) }
-func OStr(s string) Opnd    { return Opnd("s:" + s) }
+
+// OStr encodes a string operand. Strings that JSON cannot carry unchanged
+// (invalid UTF-8, control bytes) are written in Go-quoted form ("q:" prefix).
+func OStr(s string) Opnd {
+	plain := utf8.ValidString(s)
+	for i := 0; plain && i < len(s); i++ {
+		if s[i] < 0x20 || s[i] == 0x7f {
+			plain = false
+		}
+	}
+	if plain {
+		return Opnd("s:" + s)
+	}
+	return Opnd("q:" + strconv.Quote(s))
+}
 
 const (
 	ONil   Opnd = "nil"
@@ -37,7 +52,7 @@ func (o Opnd) Kind() byte {
 		return 'i'
 	case strings.HasPrefix(string(o), "f:"):
 		return 'f'
-	case strings.HasPrefix(string(o), "s:"):
+	case strings.HasPrefix(string(o), "s:"), strings.HasPrefix(string(o), "q:"):
 		return 's'
 	case o == ONil:
 		return 'n'
@@ -58,7 +73,13 @@ func (o Opnd) Float() float64 {
 	return math.Float64frombits(b)
 }
 
-func (o Opnd) Str() string { return string(o[2:]) }
+func (o Opnd) Str() string {
+	if strings.HasPrefix(string(o), "q:") {
+		s, _ := strconv.Unquote(string(o[2:]))
+		return s
+	}
+	return string(o[2:])
+}
 
 // num returns the model number for numeric operands.
 func (o Opnd) Num() (numref.Num, bool) {
